@@ -23,7 +23,10 @@ HANDLERS = [
 def termination_family():
     """exhaustive: every way out x nesting context"""
     ways = {"end": L(1, 0), "end_fail": L(1, 6), "exit3": ("X", 3), "exit_last": ("S", [L(1, 5), ("X", None)]),
-            "errexit": ("S", [("O", "e", True), L(1, 7), L(2, 0)]), "exit0": ("X", 0), "exit300": ("X", 300)}
+            "errexit": ("S", [("O", "e", True), L(1, 7), L(2, 0)]), "exit0": ("X", 0), "exit300": ("X", 300),
+            # fatal expansion errors (status 1 when the program comes from a file or stdin; bash -c reports 127)
+            "fatal_q": ("S", [L(1, 0), ("Fx", "q"), L(2, 0)]), "nounset": ("S", [L(1, 0), ("Fx", "u"), L(2, 0)]),
+            "fatal_c": ("Fx", "c"), "nounset_arith": ("Fx", "a")}
     ctxs = {"top": lambda c: c, "func": None, "loop": lambda c: ("F", 2, c), "while": lambda c: ("W", ("L", 50, [0, 1]), c),
             "eval": lambda c: ("Ev", c), "group": lambda c: ("Gr", c), "if": lambda c: ("I", L(51, 0), c),
             "case": lambda c: ("C", [(True, c, "x")]), "subshell": lambda c: ("Su", ("S", [("P",), c])),
@@ -42,7 +45,7 @@ def termination_family():
             else:
                 funcs, body = [L(62, 0)], cf(("S", [L(63, 0), w, L(64, 0)]))
             main = ("S", [L(70, 0), body, ("P",), L(71, 0)])
-            out.append((funcs, main))
+            out.append((wn, cn, funcs, main))
     return out
 
 
@@ -75,18 +78,23 @@ def run(ctx):
     rng = ctx.rng
     cases = []  # (tag, script, req, mode)
     fam = termination_family()
-    for funcs, main in fam:
+    for wn, cn, funcs, main in fam:
+        fatal = wn in ("fatal_q", "nounset", "fatal_c", "nounset_arith")
+        if fatal and cn == "pipe_last":
+            continue        # a fatal error in a pipeline stage abandons the parent too (recorded under C12: stage_error_aborts_parent)
         for hn, hb in HANDLERS:
             if hn == "calls_func" and not funcs:
                 continue
             for mode in ("c", "file", "stdin"):
-                if mode != "c" and rng.random() < 0.5:
+                if fatal and mode == "c":
+                    continue    # `bash -c` ends with 127 after a fatal expansion error, 1 from a file or stdin
+                if mode != "c" and not fatal and rng.random() < 0.5:
                     continue
                 style = rng.choice(["set", "set", "replace"])
                 s, r = build(funcs, main, hb, style)
                 cases.append(("exh", s, r, mode))
         s, r = build(funcs, main, None, "removed")
-        cases.append(("exh-removed", s, r, "c"))
+        cases.append(("exh-removed", s, r, "file" if fatal else "c"))
     for i in range(ctx.size(500, 12000)):
         # (no `eval` in the random programs: after errexit strikes inside `eval` inside a function bash 5.2 runs
         #  the EXIT handler in a state where its function calls fail — seen once per ~15 000 programs)
